@@ -335,6 +335,33 @@ def point_lines(case):
             ('mn %s %d %s %s' % (head, len(case['species']), sp, r)).replace('  ', ' ')]
 
 
+def species_forms(case):
+    """scalar point: every species as an ndarray (charges, 1) or as a {charge: array([value])} dict in a non-canonical
+    insertion order with int / numpy-int keys (derived deterministically from the case); the container a list or a tuple"""
+    import random
+    r_ = random.Random(f2b(case['ne']))
+    forms = []
+    for x in case['species']:
+        if r_.random() < 0.5:
+            forms.append(('ndarray', list(range(len(x))), [False] * len(x)))
+        else:
+            order = list(range(len(x)))
+            r_.shuffle(order)
+            if r_.random() < 0.4:
+                order = sorted(order, reverse=True)
+            forms.append(('dict', order, [r_.random() >= 0.7 for _ in order]))
+    return forms, r_.random() < 0.5
+
+
+def mnd_line(case):
+    """driver line for neutrality matching with the species as dictionaries in the insertion order actually used"""
+    S, A, C = rates_at(case, case['ne'], case['te'])
+    forms, _ = species_forms(case)
+    sp = ' '.join('%d %s' % (len(x), ' '.join('%d %s' % (z, f2b(x[z])) for z in order)) for x, (_, order, _) in zip(case['species'], forms))
+    return ('mnd %d %s %s %s %d %s %s %s %s' % (case['Z'], '1' if case['donor'] else '0', f2b(case['ne']), f2b(case['nD']),
+                                               len(case['species']), sp, fs(S), fs(A), fs(C))).replace('  ', ' ')
+
+
 def exec_point(env, case):
     """run the three public entry points with scalar inputs; returns dict of observations"""
     ib = env.ib
@@ -353,21 +380,14 @@ def exec_point(env, case):
     out['fd'] = (st, _vec(r, case['Z']) if st == 'ok' else r)
     out['cap_fd'] = list(CAP)
     ad = env.Mock(case)
-    # scalar point: every species as an ndarray (charges, 1) or as a {charge: array([value])} dict in a non-canonical
-    # insertion order (derived deterministically from the case)
-    import random
-    r_ = random.Random(f2b(case['ne']))
     species = []
-    for x in case['species']:
-        if r_.random() < 0.5:
+    forms, as_tuple = species_forms(case)
+    for x, (form, order, npkeys) in zip(case['species'], forms):
+        if form == 'ndarray':
             species.append(np.array(x, dtype=float).reshape(-1, 1))
         else:
-            order = list(range(len(x)))
-            r_.shuffle(order)
-            if r_.random() < 0.4:
-                order = sorted(order, reverse=True)
-            species.append({(z if r_.random() < 0.7 else np.int64(z)): np.array([x[z]]) for z in order})
-    if r_.random() < 0.5:
+            species.append({(np.int64(z) if nk else z): np.array([x[z]]) for z, nk in zip(order, npkeys)})
+    if as_tuple:
         species = tuple(species)
     st, r = guarded(ib.match_plasma_neutrality, ad, el, species, case['ne'], case['te'], **kw)
     out['mn'] = (st, _vec(r, case['Z']) if st == 'ok' else r)
@@ -1701,6 +1721,7 @@ def run_point_cases(ctx, env, cases, stream, compare=True):
     for c in cases:
         lines += point_lines(c)
     outs = ctx.driver(lines) if (lines and compare) else []
+    mnd = ctx.driver([mnd_line(c) for c in cases]) if (cases and compare) else []
     nprob = 0
     for i, c in enumerate(cases):
         out = exec_point_frac_only(env, c) if c.get('family') == 'wide' else exec_point(env, c)
@@ -1712,6 +1733,21 @@ def run_point_cases(ctx, env, cases, stream, compare=True):
         ctx.count('point:%s:%s' % (stream, 'donor' if c['donor'] else 'no-donor'))
         if compare:
             compare_point(ctx, c, out, outs[4 * i:4 * i + 4], stream)
+            # the model's own dictionary normalisation (`dictToArray`, insertion order as given) against the same call
+            st_, v_ = out['mn']
+            if st_ == 'ok' and c['species']:
+                mod = [b2f(t) for t in mnd[i].split()]
+                sc = max(max(abs(x) for x in mod), 1e-300) * _mn_amplification(mod)
+                ctx.traces += 1
+                ctx.count('K:mnd')
+                if len(mod) != len(v_) or not all(abs(x - y) <= K_TOL * sc for x, y in zip(mod, v_)) or not mn_charge_agrees(mod, v_):
+                    caps = out.get('cap_mn') or []
+                    sdev = solver_deviation(caps[0]) if len(caps) == 1 else None
+                    if sdev is not None and sdev > K_TOL / 2:
+                        ctx.count('K-excused:lsq_linear-deviation')
+                    else:
+                        ctx.disagreements += 1
+                        ctx.broke('correspondence', 'C09 stream mnd', dict(line=mnd_line(c)[:300], model=mod, implementation=v_, case=c))
         nprob += oracle_point(ctx, c, out, stream)
     return nprob
 
